@@ -416,6 +416,55 @@ def check_bmin_guard(ctx, R, prefix=()):
     leafwise(ctx, "R7-bmin-enforcement", f"{key}[bmin test]", where, [FL[0]], g, "the bmin cap tests the selected resolution", prefix=prefix)
 
 
+def check_bmin_mask(ctx, R, prefix=()):
+    """array form of the bmin enforcement (vectorised scheduler): where the mask `f/rho < bmin` holds the length is built from
+    rho' = f/bmin, and the rho tested by the mask is the one the unmasked branch uses:  z_masked * (f/rho_tested) == bmin * z_unmasked
+    with z = the argument of the rounding that defines L (z_masked = fs*bmin/f, z_unmasked = fs/rho)."""
+    key = R.key; where = R.repo.where(key, R.repo.get(key))
+    FL = R.field("L")
+    if FL is None: return
+    bmin = X.var("bmin"); N = X.var("N")
+
+    def zarg(x):
+        if x.eq(N): return N                      # L = N on every branch: round(fs / (fs/N)) = N
+        ats = [a for a in x.all_atoms() if a.tag == "fn" and a.name == "nearest"]
+        return ats[0].args[0] if len(ats) == 1 else None
+
+    def first_leaf(v):
+        allN = True
+        for _, l in pv_leaves(v):
+            if isinstance(l, X) and not l.eq(N): return l
+            if not isinstance(l, X): allN = False
+        return N if allN else None
+    def has_lt(v):
+        return isinstance(v, PV) and (getattr(v.cond, "lt", None) is not None or has_lt(v.hi) or has_lt(v.lo))
+    found = 0
+    stack = [FL[0]]
+    while stack:
+        v = stack.pop()
+        if not isinstance(v, PV): continue
+        d = getattr(v.cond, "lt", None)
+        # the mask is the last inequality decided before the length is stored (after the three-way compromise, before the K == 1 widening)
+        if d is not None and not has_lt(v.hi) and not has_lt(v.lo):
+            hi, lo = first_leaf(v.hi), first_leaf(v.lo)
+            zt, zf = (zarg(hi) if hi is not None else None), (zarg(lo) if lo is not None else None)
+            c = f"{key}[bmin mask]"
+            found += 1
+            if zt is None or zf is None:
+                ctx.unknown("R7-bmin-enforcement", c, "masked / unmasked segment lengths not recognised", where)
+            else:
+                try:
+                    st_, why = compare(zt * (d + bmin), bmin * zf, prepare=sched_env)
+                except Unknown as ex:
+                    st_, why = UNKNOWN, str(ex)
+                ctx.ob("R7-bmin-enforcement", c, st_, "" if st_ == HOLDS else ("where the mask f/rho < bmin holds the length must come from rho' = f/bmin, and the rho the mask tests must be the "
+                       "resolution the unmasked bins use: " + why), where, lhs=zt * (d + bmin) if st_ != HOLDS else None, rhs=bmin * zf if st_ != HOLDS else None)
+            continue
+        stack.append(v.hi); stack.append(v.lo)
+    if not found:
+        ctx.unknown("R7-bmin-enforcement", f"{key}[bmin mask]", "no inequality decided before the stored segment length found", where)
+
+
 def check_lpsd_wrapper(ctx, repo):
     key = f"{SCHED}::lpsd_plan"; fn = repo.get(key); where = repo.where(key, fn)
     ctx.analysed(key)
